@@ -435,10 +435,16 @@ def run(ctx):
                 if isinstance(a, ast.ListComp) and txt(a.generators[0].iter) in (f"{g}.nodes()", f"{g}.nodes", f"list({g}.nodes())") and len(a.generators[0].ifs) == 1:
                     n_ = txt(a.generators[0].target)
                     cond = txt(a.generators[0].ifs[0])
-                    if cond in (f"len(list({g}.neighbors({n_}))) == 0", f"{g}.degree({n_}) == 0", f"not list({g}.neighbors({n_}))", f"{g}.degree[{n_}] == 0"):
+                    nb = [f"list({g}.neighbors({n_}))", f"{g}[{n_}]", f"{g}.adj[{n_}]", f"{g}.neighbors({n_})", f"set({g}.neighbors({n_}))", f"tuple({g}.neighbors({n_}))"]
+                    ok_conds = {f"{g}.degree({n_}) == 0", f"{g}.degree[{n_}] == 0"} | {f"len({x}) == 0" for x in nb if not x.endswith(f".neighbors({n_})")} \
+                        | {f"not {x}" for x in nb if not x.endswith(f".neighbors({n_})")} | {f"len({x}) < 1" for x in nb if not x.endswith(f".neighbors({n_})")}
+                    neg_conds = {f"len({x}) > 0" for x in nb} | {f"len({x}) != 0" for x in nb} | {f"{g}.degree({n_}) > 0", f"{g}.degree({n_}) != 0", f"{g}.degree({n_}) >= 1"} | set(nb)
+                    if cond in ok_conds:
                         o.holds(ae, rmn[0], "exactly the isolated vertices are dropped")
-                    else:
+                    elif cond in neg_conds or ("== 1" in cond or "<= 1" in cond or "< 2" in cond):
                         o.violated(ae, rmn[0], f"vertices dropped under `{cond}`, not exactly the isolated ones")
+                    else:
+                        o.undecided(f"condition `{cond}` under which vertices are dropped not recognised as 'isolated'", ae, rmn[0])
                 elif txt(a) in (f"list(nx.isolates({g}))", f"nx.isolates({g})", f"list(networkx.isolates({g}))", f"tuple(nx.isolates({g}))") and prog.external(ae.module, ast.parse("nx.isolates", mode="eval").body) in ("networkx.isolates", None):
                     o.holds(ae, rmn[0], "exactly the isolated vertices are dropped (networkx.isolates, materialised before the removal)" if txt(a).startswith(("list", "tuple")) else "exactly the isolated vertices are dropped")
                 else:
